@@ -340,6 +340,7 @@ pub fn map_op<K: SimK, V: SimV, const C: usize>(m: &mut Map<K, V, C>, cx: &mut C
         Op::Drain { take, end, .. } => {
             let mut sess = Session::new("drain", pre, (true, true));
             let order = twin_order_map(m, pre, 3);
+            let mut drop_panic = None;
             {
                 let d = win!(aw, m.drain());
                 let rest = consume(d, cx, &mut sess, *take, *end, |x: &(K, V)| (x.0.peek().id, x.1.peek().id), |cx, x| {
@@ -354,9 +355,22 @@ pub fn map_op<K: SimK, V: SimV, const C: usize>(m: &mut Map<K, V, C>, cx: &mut C
                         if sess.taken < pre.len() {
                             cx.probe("drain_dropped_with_remaining");
                         }
-                        win!(aw, drop(d));
+                        // the drain is dropped "no matter how": when the destructor of an element that was
+                        // still in it panics, the drain is gone all the same and the map must be empty
+                        if let Err(p) = std::panic::catch_unwind(std::panic::AssertUnwindSafe(move || win!(aw, drop(d)))) {
+                            drop_panic = Some(p);
+                        }
                     }
                 }
+            }
+            if let Some(p) = drop_panic {
+                crate::alloc::arm(false);
+                cx.probe("drain_drop_panicked");
+                let left = crate::world::observing(|| std::panic::catch_unwind(std::panic::AssertUnwindSafe(|| snap_map(m).len())).unwrap_or(usize::MAX));
+                if m.len() != 0 || left != 0 || !m.is_empty() {
+                    violate("drain-not-empty-after-panic", format!("drain() (taken {} of {}) was dropped and an element destructor panicked inside that drop: afterwards len()={} and iteration yields {} entries", sess.taken, pre.len(), m.len(), left));
+                }
+                std::panic::resume_unwind(p);
             }
             // drain always empties
             let left = snap_map(m);
